@@ -82,7 +82,11 @@ def check(ctx):
                 why.append(f'is read from {srcs or "?"}, expected from {src}')
             ctx.ob('R3', fi, f"column '{name}'", ok if (ok or vi is not None) else None,
                    f'{kind.lower()} values' + (f' of {src}' if src else '') if ok else f"column '{name}' " + '; '.join(why))
-            if kind in ('SITE',) and have_kind == 'SITE':
+            if kind in ('SITE',) and have_kind == 'SITE' and v.at == 'mixed':
+                ctx.ob('R2', fi, f"column '{name}' frame offset", False,
+                       'change indices of different frame offsets (shift -1 gives t, shift +1 gives t+1) are merged into one '
+                       'time axis: before/after columns are read one frame off for some events')
+            elif kind in ('SITE',) and have_kind == 'SITE':
                 ok2 = v.at == at
                 ctx.ob('R2', fi, f"column '{name}' frame offset", ok2 if v.at is not None else None,
                        f'state at frame t{"+1" if at else ""}' if ok2 else
